@@ -569,14 +569,14 @@ func (e *Exec) havocLoopState(st *State, fr *Frame, h *ssa.BasicBlock, phis []*s
 
 // runRegion executes from header h (phis already bound) until all paths end.
 func (e *Exec) runRegion(st *State, fr *Frame, h *ssa.BasicBlock) {
-	wl := []work{{st: st, fr: fr, blk: h, prev: nil, idx: firstNonPhi(h)}}
+	wl := []work{{st: st, fr: fr, blk: h, prev: nil, idx: firstNonPhi(h), resumed: true}}
 	for len(wl) > 0 {
 		w := wl[len(wl)-1]
 		wl = wl[:len(wl)-1]
 		if w.st.Dead {
 			continue
 		}
-		if w.idx == 0 && w.fr.Region != nil && !w.fr.Region[w.blk] {
+		if w.idx == 0 && !w.resumed && w.fr.Region != nil && !w.fr.Region[w.blk] {
 			continue // left the loop
 		}
 		debugf("region %s: block %d idx %d dead=%v", fr.Fn.Name(), w.blk.Index, w.idx, w.st.Dead)
